@@ -187,7 +187,7 @@ EmptySubclassSame(K) ==
 \* render displayed - for a string source, the tag of the text the Template object that the
 \* cache handed out was compiled from (keytab numbers the texts, made/got are TemplateCache's).
 VARIABLES kase, hist, shown, keytab
-tsVars == <<order, val, ret, made, got, req, kase, hist, shown, keytab>>
+tsVars == <<order, val, ret, made, got, req, cls, kase, hist, shown, keytab>>
 
 TSInit(K) == TCInit /\ kase = K /\ hist = <<>> /\ shown = "-" /\ keytab = <<>>
 
@@ -201,7 +201,7 @@ RenderAs(c, sel, o) ==      \* o: the admitted outcome taken
           /\ Compile(Pos(kt, o))
           /\ shown' = kt[made'[got']]
      ELSE /\ shown' = o
-          /\ UNCHANGED <<order, val, ret, made, got, req, keytab>>
+          /\ UNCHANGED <<order, val, ret, made, got, req, cls, keytab>>
 
 Render(c, sel) == \E o \in Outcome(kase, c, sel) : RenderAs(c, sel, o)
 
